@@ -138,6 +138,8 @@ def gen():
                 add("drop statement", re.match(r"^\s*", code).group(0) + "/* dropped */")
             # early return of the error dropped: `return Err(..);`
             # `?` dropped is a type error; skipped
+    if os.environ.get("SWEEP_GEN") == "2":
+        muts = gen2(files)
     # de-duplicate
     seen, out = set(), []
     for m in muts:
@@ -147,6 +149,44 @@ def gen():
     for n, m in enumerate(out):
         m["id"] = n
     return out
+
+
+def gen2(files):
+    """second operator set: values of adjacent struct fields exchanged, the two components of a pair exchanged,
+    one of two adjacent similar statements duplicated over the other"""
+    muts = []
+    for rel in files:
+        if not rel.endswith(".rs") or rel not in FILE_CHECKS:
+            continue
+        lines = open(os.path.join(REPO, rel)).read().split("\n")
+        skip_from = len(lines)
+        for i, ln in enumerate(lines):
+            if ln.strip().startswith("#[cfg(test)]") and any("mod test" in x for x in lines[i + 1:i + 4]):
+                skip_from = i
+                break
+        fld = re.compile(r"^(\s*)(\w+)(?:: (.+))?,\s*$")
+        for i in range(skip_from - 1):
+            a, b = fld.match(lines[i]), fld.match(lines[i + 1])
+            if a and b and a.group(1) == b.group(1) and not lines[i].strip().startswith("//"):
+                va, vb = a.group(3) or a.group(2), b.group(3) or b.group(2)
+                if va != vb:
+                    # two-line mutant: encoded as a replacement of line i by both new lines, and line i+1 emptied
+                    na = f"{a.group(1)}{a.group(2)}: {vb},"
+                    nb = f"{b.group(1)}{b.group(2)}: {va},"
+                    muts.append({"file": rel, "line": i + 1, "op": "exchange adjacent field values", "before": lines[i],
+                                 "after": na, "line2": i + 2, "before2": lines[i + 1], "after2": nb})
+            arg = re.compile(r"^(\s*)([^:{}]+),\s*$")
+            a2, b2 = arg.match(lines[i]), arg.match(lines[i + 1])
+            if a2 and b2 and a2.group(1) == b2.group(1) and a2.group(2) != b2.group(2) and not lines[i].strip().startswith("//"):
+                muts.append({"file": rel, "line": i + 1, "op": "exchange adjacent arguments", "before": lines[i], "after": lines[i + 1],
+                             "line2": i + 2, "before2": lines[i + 1], "after2": lines[i]})
+            code = code_part(lines[i])
+            for m in re.finditer(r"\(([\w\.\*&]+), ([\w\.\*&]+)\)", code):
+                if in_string(code, m.start()) or m.group(1) == m.group(2):
+                    continue
+                new = code[:m.start()] + f"({m.group(2)}, {m.group(1)})" + code[m.end():]
+                muts.append({"file": rel, "line": i + 1, "op": "exchange pair components", "before": lines[i], "after": new + lines[i][len(code):]})
+    return muts
 
 
 def sh(cmd, cwd=None, timeout=None, env=None):
@@ -178,7 +218,7 @@ def run(inp, outdir, spec, only=None):
     done = set()
     if os.path.exists(resf) and only is None:
         done = {json.loads(l)["id"] for l in open(resf)}
-    base = setup(k)
+    base = setup(int(os.environ.get("SWEEP_SLOT", k)))
     env = dict(os.environ, CARGO_NET_OFFLINE="true")
     rc, out = sh("cargo test --lib --offline 2>&1 | tail -5", cwd=base + "/repo", timeout=1200, env=env)
     if "test result: ok" not in out:
@@ -192,6 +232,9 @@ def run(inp, outdir, spec, only=None):
         lines = orig.split("\n")
         assert lines[m["line"] - 1] == m["before"], m
         lines[m["line"] - 1] = m["after"]
+        if "line2" in m:
+            assert lines[m["line2"] - 1] == m["before2"], m
+            lines[m["line2"] - 1] = m["after2"]
         open(path, "w").write("\n".join(lines))
         t0 = time.time()
         res = dict(m)
